@@ -124,6 +124,24 @@ def vectorise(t, lv, n, shp, dim_term):
                     acc = T("matmul", acc, m)
                 r = T("diagof", T("matmul", acc, T("T", cols)))
                 used[0] = True
+        elif x.op == "sum" and len(x.args) == 1 and isinstance(x.args[0], Term) and x.args[0].op == "mul" and len(x.args[0].args) == 2:
+            # (r_j @ A) . c_j written with vectors: sum((r_j @ A) * c_j) is the diagonal entry of R A C^T
+            for p_, q_ in (x.args[0].args, x.args[0].args[::-1]):
+                fac = []
+                y = p_
+                while isinstance(y, Term) and y.op == "matmul":
+                    fac.insert(0, y.args[1])
+                    y = y.args[0]
+                fac.insert(0, y)
+                rows = vectorise_rows(fac[0], lv, n, shp)
+                cols = vectorise_rows(q_, lv, n, shp)
+                if rows is not None and cols is not None and not any(mentions(m, lv) for m in fac[1:]):
+                    acc = rows
+                    for m in fac[1:]:
+                        acc = T("matmul", acc, m)
+                    r = T("diagof", T("matmul", acc, T("T", cols)))
+                    used[0] = True
+                    break
         elif x.op == "phi" and len(x.args) == 3:
             parts = [rec(a) for a in x.args]
             r = None if any(p is None for p in parts) else T("where3", *parts)
@@ -191,6 +209,15 @@ def vectorise_rows(t, lv, n, shp, column=False):
         elif x.op in ELEMENTWISE:
             parts = [rec(a) if isinstance(a, Term) else a for a in x.args]
             r = None if any(p is None for p in parts) else T(x.op, *parts)
+            if r is not None and x.op in ("mul", "div") and len(x.args) == 2:
+                # row_j * v with v a loop-invariant vector along the row: column scaling R @ dg(v)
+                for k_ in (0, 1):
+                    a_, b_ = x.args[k_], x.args[1 - k_]
+                    if isinstance(b_, Term) and not mentions(b_, lv) and isinstance(a_, Term) and mentions(a_, lv):
+                        bsh = shp(b_)
+                        if bsh is not None and len(bsh) == 1 and (x.op == "mul" or k_ == 0):
+                            vec = b_ if x.op == "mul" else T("div", const(1), b_)
+                            r = T("matmul", parts[k_], T("dg", vec))
         memo[x] = r
         return r
 
@@ -286,3 +313,36 @@ def lift_broadcast(t, lv, n, shp, dim_term):
     if out is None or not info["hit"] or info["m"] is None:
         return None
     return out, (n, info["m"], info["d"])
+
+
+def _cum_lengths(t):
+    """L if t is cumsum([0] + L) (the running block boundaries of consecutive blocks of lengths L)"""
+    if isinstance(t, Term) and t.op == "cumsum" and len(t.args) == 1:
+        c = t.args[0]
+        if isinstance(c, Term) and c.op == "concat" and len(c.args) == 2:
+            z = c.args[0]
+            if isinstance(z, Term) and z.op == "list" and len(z.args) == 1 and z.args[0] == const(0):
+                return c.args[1]
+    return None
+
+
+def consecutive_blocks(elt, lv, n, shp):
+    """[A[t[i]:t[i+1]] for i in range(n)] with t = cumsum([0] + L), len(L) == n  ->  (A, L)"""
+    if not (isinstance(elt, Term) and elt.op == "getitem"):
+        return None
+    A_t, idx = elt.args
+    if mentions(A_t, lv) or not (isinstance(idx, Term) and idx.op == "slice" and len(idx.args) == 3 and idx.args[2] == _NONE):
+        return None
+    lo, hi = idx.args[0], idx.args[1]
+    if not (isinstance(lo, Term) and lo.op == "getitem" and lo.args[1] == lv and isinstance(hi, Term) and hi.op == "getitem" and hi.args[0] == lo.args[0]):
+        return None
+    nxt = hi.args[1]
+    if nxt not in (T("add", lv, const(1)), T("add", const(1), lv)):
+        return None
+    L = _cum_lengths(lo.args[0])
+    if L is None or mentions(L, lv):
+        return None
+    lsh = shp(L)
+    if lsh is None or len(lsh) != 1 or lsh[0] != n:
+        return None
+    return A_t, L
